@@ -282,6 +282,12 @@ impl DepthFirstSearch {
                         // Rule executed successfully and goal is now proven
                         goal.status = GoalStatus::Proven;
 
+                        // Sub-goals need one proof; only the root goal collects solutions
+                        if depth > 0 {
+                            facts.commit_undo_frame(); // keep changes (undone if an enclosing frame rolls back)
+                            return true;
+                        }
+
                         // Save this solution
                         self.solutions.push(Solution {
                             path: self.path.clone(),
@@ -290,7 +296,8 @@ impl DepthFirstSearch {
 
                         // If we only want one solution OR we've found enough, stop searching
                         if self.max_solutions == 1 || self.solutions.len() >= self.max_solutions {
-                            return true; // keep changes
+                            facts.commit_undo_frame(); // keep changes
+                            return true;
                         }
 
                         // Otherwise (max_solutions > 1 and not enough yet), rollback and continue
@@ -309,6 +316,12 @@ impl DepthFirstSearch {
                                 Ok(true) if self.check_goal_in_facts(goal, facts) => {
                                     goal.status = GoalStatus::Proven;
 
+                                    // Sub-goals need one proof; only the root goal collects solutions
+                                    if depth > 0 {
+                                        facts.commit_undo_frame(); // keep changes
+                                        return true;
+                                    }
+
                                     // Save this solution
                                     self.solutions.push(Solution {
                                         path: self.path.clone(),
@@ -319,7 +332,8 @@ impl DepthFirstSearch {
                                     if self.max_solutions == 1
                                         || self.solutions.len() >= self.max_solutions
                                     {
-                                        return true; // keep changes
+                                        facts.commit_undo_frame(); // keep changes
+                                        return true;
                                     }
 
                                     // Otherwise, rollback and continue searching
@@ -370,8 +384,9 @@ impl DepthFirstSearch {
             facts.rollback_undo_frame();
         }
 
-        // If we found at least one solution (even if less than max_solutions), consider it proven
-        if !self.solutions.is_empty() {
+        // If we found at least one solution (even if less than max_solutions), consider it proven.
+        // Solutions belong to the root goal: a proof of some sub-goal says nothing about this goal.
+        if depth == 0 && !self.solutions.is_empty() {
             goal.status = GoalStatus::Proven;
             // For negated goals, finding a proof means negation fails
             return !goal.is_negated;
